@@ -17,25 +17,31 @@ type PropDef struct {
 	Classes []string
 	Level   string
 	Note    string
+	// Skip: labels (prefixes) of callee postconditions that are not assumed at
+	// call sites while this property is checked (they belong to other
+	// properties and only enlarge the queries; leaving an assumption out is sound)
+	Skip []string
 }
+
+var graphSetPosts = []string{"C09:add:", "C09:union:", "C10:", "C08:add:", "C08:union:", "C08:intersect:", "C08:remove:", "C09:copy:", "C08:indexNodes:", "C08:indexRoots:", "C08:idx", "C08:inv", "C09:inv", "C10:inv", "C08:cleanEdges:closedFrom", "C08:cleanEdges:closedTo", "C08:cleanEdges:oneEdgePerSourceAndType", "C08:cleanEdges:noRepeatedTargets"}
 
 var propDefs = map[string]PropDef{
 	"C01": {Classes: []string{"TABLE", "LEMMA", "POST", "INV", "PRE"}, Level: "proof"},
 	"C02": {Classes: []string{"TABLE", "LEMMA", "POST", "INV", "PRE"}, Level: "proof"},
 	"C03": {Classes: []string{"LEMMA", "POST", "INV", "PRE"}, Level: "proof"},
-	"C04": {Classes: []string{"SAFE", "POST", "PRE", "INV", "OWN"}, Level: "proof"},
+	"C04": {Classes: []string{"SAFE", "POST", "PRE", "INV", "OWN"}, Level: "proof", Skip: graphSetPosts},
 	"C05": {Classes: []string{"POST", "LEMMA", "INV", "PRE"}, Level: "proof"},
 	"C06": {Classes: []string{"TABLE", "LEMMA", "POST", "TRACE", "PRE", "INV"}, Level: "proof"},
-	"C07": {Classes: []string{"SAFE", "PRE", "INV", "FRAME"}, Level: "proof"},
+	"C07": {Classes: []string{"SAFE", "PRE", "INV", "FRAME"}, Level: "proof", Skip: graphSetPosts},
 	"C08": {Classes: []string{"POST", "INV", "PRE", "LEMMA"}, Level: "proof"},
 	"C09": {Classes: []string{"POST", "INV", "PRE", "LEMMA"}, Level: "proof"},
 	"C10": {Classes: []string{"POST", "INV", "PRE", "LEMMA"}, Level: "proof"},
-	"C11": {Classes: []string{"FRAME"}, Level: "proof"},
-	"C12": {Classes: []string{"OWN", "POST", "INV"}, Level: "proof"},
+	"C11": {Classes: []string{"FRAME"}, Level: "proof", Skip: graphSetPosts},
+	"C12": {Classes: []string{"OWN", "POST", "INV"}, Level: "proof", Skip: graphSetPosts},
 	"C13": {Classes: []string{"POST", "LEMMA", "PRE", "INV"}, Level: "proof"},
-	"C14": {Classes: []string{"POST", "INV", "PRE", "LEMMA"}, Level: "proof"},
+	"C14": {Classes: []string{"POST", "INV", "PRE", "LEMMA"}, Level: "proof", Skip: graphSetPosts},
 	"C15": {Classes: []string{"POST", "INV", "PRE", "TERM", "LEMMA"}, Level: "proof"},
-	"C16": {Classes: []string{"POST", "INV", "PRE", "LEMMA"}, Level: "proof"},
+	"C16": {Classes: []string{"POST", "INV", "PRE", "LEMMA"}, Level: "proof", Skip: graphSetPosts},
 	"C17": {Classes: []string{"LOCK"}, Level: "proof"},
 	"C18": {Classes: []string{"FRAME", "POST", "PRE", "OWN", "LEMMA"}, Level: "proof"},
 	"C19": {Classes: []string{"SAFE", "POST", "PRE", "TRACE", "LEMMA"}, Level: "proof"},
@@ -98,6 +104,7 @@ type Evidence struct {
 func cmdCheck(args []string) int {
 	fs := flag.NewFlagSet("check", flag.ExitOnError)
 	repo := fs.String("repo", "/repo", "")
+	replayBase := fs.String("replay-dir", "", "directory for replay files (default <verif>/replays)")
 	verif := fs.String("verif", "/verif", "")
 	prop := fs.String("property", "", "")
 	tier := fs.String("tier", "quick", "")
@@ -110,6 +117,7 @@ func cmdCheck(args []string) int {
 	seed, _ := strconv.Atoi(os.Getenv("VERIF_SEED"))
 	t0 := time.Now()
 	pd, ok := propDefs[*prop]
+	skipLabels = pd.Skip
 	if !ok {
 		fmt.Fprintln(os.Stderr, "unknown property", *prop)
 		return 2
@@ -185,6 +193,9 @@ func cmdCheck(args []string) int {
 		}
 	}
 	replayDir := filepath.Join(*verif, "replays", *prop)
+	if *replayBase != "" {
+		replayDir = filepath.Join(*replayBase, *prop)
+	}
 	os.MkdirAll(replayDir, 0o755)
 
 	total, discharged, violations := 0, 0, 0
@@ -423,4 +434,16 @@ func (db *SpecDB) sourceList() []string {
 func (db *SpecDB) expectFloor(prop string) (int, bool) {
 	n, ok := db.expect["prop:"+prop]
 	return n, ok
+}
+
+// skipLabels: see PropDef.Skip.
+var skipLabels []string
+
+func skipLabel(label string) bool {
+	for _, p := range skipLabels {
+		if strings.HasPrefix(label, p) {
+			return true
+		}
+	}
+	return false
 }
